@@ -806,8 +806,7 @@ pub fn c12_family_child(args: &Args) {
 
 fn c12_frames_in_children(args: &Args, report: &mut Report, every: usize, build: &str) {
     let exe = std::env::current_exe().expect("own path");
-    let dir = std::env::temp_dir().join(format!("mon-c12-{}", std::process::id()));
-    let _ = std::fs::create_dir_all(&dir);
+    let dir = scratch_dir("c12");
     for fam in 0..C12_FAMILIES {
         let mut skip: Vec<usize> = Vec::new();
         loop {
